@@ -578,6 +578,7 @@ def special_C14(tier, seed, harness, work):
     runs = [("soak natural GC", ["gcarm", "soak", secs, str(seed)], {}),
             ("soak GOGC=1", ["gcarm", "soak", secs, str(seed + 1)], {"GOGC": "1"}),
             ("soak GOGC=10 GOMAXPROCS=2", ["gcarm", "soak", secs, str(seed + 2)], {"GOGC": "10", "GOMAXPROCS": "2"}),
+            ("barrier (moves between tables, last row first, under a concurrently running collector; pointer component first / last / in the middle)", ["gcarm", "barrier", "3" if tier == "quick" else "30"], {}),
             ("retain (finalizers run after removal / reset)", ["gcarm", "retain"], {}),
             ("escape (non-escaping literals at call sites)", ["gcarm", "escape"], {}),
             ("alias (value sources pointing into the world's own storage, at capacity boundaries)", ["gcarm", "alias"], {})]
@@ -628,6 +629,37 @@ def special_C18(tier, seed, harness, work):
     cov["rule"] = "one evaluation = one step (generic call + ID-based equivalent on the twin world, then full snapshot comparison); distinct non-trivial = (seed, arity, build) combinations, each a different random sequence of MapN/FilterN/QueryN calls incl. builder calls between queries and registration"
     cov["samples"] = ["arity 3: NewWith, Get (write through position pointers), f.Optional(1), f.Query, f.Exclusive(), f.Query, f.Register, f.Query …"]
     return {"coverage": cov, "violations": viol}
+
+
+def events_arm(pid, tier, seed, what):
+    """listeners acting on the world from inside their callback (nested batch operations, a listener removing itself at
+    the last removal event): a replayer driven by the events must rebuild every entity's components, nothing stays locked"""
+    cov = {}
+    viol = []
+    rounds = 60 if tier == "quick" else 1500
+    for tags in ("verif", "verif,tiny"):
+        ok, log, hb = vlib.build_harness(tags)
+        if not ok:
+            rp = os.path.join(VERIF, "replays", "%s-build.txt" % pid)
+            open(rp, "w").write("harness does not build with tags %s:\n%s" % (tags, log))
+            return {"coverage": cov, "violations": [(rp, "no-failing-input-found")]}
+        p = subprocess.run([hb, "eventsarm", str(seed), str(rounds)], stdout=subprocess.PIPE, stderr=subprocess.STDOUT, timeout=3000)
+        out = p.stdout.decode(errors="replace")
+        cov["reentrant_listener_arm_" + tags.replace(",", "_")] = out.strip().split("\n")[-1][:300] if p.returncode == 0 else out.strip().split("\n")[0][:300]
+        if p.returncode != 0:
+            rp = os.path.join(VERIF, "replays", "%s-events-%s.txt" % (pid, tags.replace(",", "-")))
+            open(rp, "w").write("# %s: %s (build tags %s)\n# re-run: /verif/harness/bin/harness-%s eventsarm %d %d\n%s\n" % (pid, what, tags, tags.replace(",", "-"), seed, rounds, out[-8000:]))
+            viol.append((rp, ""))
+            break
+    return {"coverage": cov, "violations": viol}
+
+
+def special_C11(tier, seed, harness, work):
+    return events_arm("C11", tier, seed, "with a listener that acts inside its callback, replaying the events no longer rebuilds the world")
+
+
+def special_C09(tier, seed, harness, work):
+    return events_arm("C09", tier, seed, "a lock is not released, or an operation fails, in a history with a listener that acts inside its callback")
 
 
 def special_C16(tier, seed, harness, work):
